@@ -281,26 +281,29 @@ func c06Bindings(c *Ctx, ht *types.Named, funcs map[string]*ssa.Function) {
 	// HaveRowClass
 	if fn := renderToOf(c, "html"); fn != nil {
 		ok := false
-		eachInstr(fn, func(in ssa.Instruction) {
-			st, isSt := in.(*ssa.Store)
-			if !isSt {
-				return
-			}
-			fa, isFA := st.Addr.(*ssa.FieldAddr)
-			if !isFA {
-				return
-			}
-			stt, isS := fa.X.Type().Underlying().(*types.Pointer).Elem().Underlying().(*types.Struct)
-			if !isS || stt.Field(fa.Field).Name() != "HaveRowClass" {
-				return
-			}
-			e, nn, isT := nilTest(st.Val)
-			if isT && nn == 0 {
-				if f, _ := loadedField(e); f == gen {
-					ok = true
+		// the template's data may be built by RenderTo or by a helper of the package it calls
+		for _, hf := range pkgReach(fn, 2) {
+			eachInstr(hf, func(in ssa.Instruction) {
+				st, isSt := in.(*ssa.Store)
+				if !isSt {
+					return
 				}
-			}
-		})
+				fa, isFA := st.Addr.(*ssa.FieldAddr)
+				if !isFA {
+					return
+				}
+				stt, isS := fa.X.Type().Underlying().(*types.Pointer).Elem().Underlying().(*types.Struct)
+				if !isS || stt.Field(fa.Field).Name() != "HaveRowClass" {
+					return
+				}
+				e, nn, isT := nilTest(st.Val)
+				if isT && nn == 0 {
+					if f, _ := loadedField(e); f == gen {
+						ok = true
+					}
+				}
+			})
+		}
 		r.Check("R06.4", FuncName(fn), "HaveRowClass is 'a generator is set'", fn.Pos(), ok, "")
 	}
 }
